@@ -41,10 +41,26 @@ def check(run):
         sessions.append(refexp.make_session(fp, bps, ops, target=rng.choice(["fd", "fd", "nm"])))
     res = E.run_sessions(run, sessions)
     seen = set()
-    for s, r in zip(sessions, res):
+    # correspondence with the Lean schema interpreter: the MODEL of FilePreamble::read (through the window model) must
+    # return the same preamble, and the MODEL of FilePreamble::write must reproduce the library's bytes exactly
+    sch_lines, sch_idx = [], []
+    for si, r in enumerate(res):
+        if r["results"] is not None and r["plain"] and r["plain"][0][0]:
+            sch_lines.append("sch " + r["plain"][0][0].hex()); sch_idx.append(si)
+    sch = dict(zip(sch_idx, G.run_driver(sch_lines))) if run.driver_ok else {}
+    for si, (s, r) in enumerate(zip(sessions, res)):
         run.case(s[0][:300], True)
         run.count("parameter sets:%d" % len(s[1].bps))
-        E.record_failures(run, s, E.judge_files(s, r, tag="preamble"), seen)
+        bads = E.judge_files(s, r, tag="preamble")
+        E.record_failures(run, s, bads, seen)
+        m = sch.get(si)
+        if not bads and m is not None and r["rd"].get(0):
+            impl_pre = r["rd"][0][2:].split(" ")[0]
+            if not m.startswith("M ") or m[2:].split(" #")[0] != impl_pre:
+                if len(run.model_fail) < 5:
+                    run.model_fail.append((s[0][:3000], {"schema model (FilePreamble::read)": m[:1200], "implementation": impl_pre[:1200]}))
+            elif not m.endswith("#rewrite=same") and len(run.model_fail) < 5:
+                run.model_fail.append((s[0][:3000], {"why": "model of FilePreamble::write does not reproduce the library's preamble bytes", "model": m[-60:]}))
 
 
 def replay(run, data):
